@@ -130,6 +130,8 @@ func scriptedService(s *res.Service, tbl *scriptTable, onEnter func(kind string,
 	s.Handle("u.$id", access, getU, call, callStar, auth, authStar, newH)
 	s.Handle("noaccess.$id", getM, call, auth)
 	s.Handle("star.$id", access, getM, callStar, authStar)
+	// hot groups: many resources sharing three worker groups (contention inside a group)
+	s.Handle("h.$b.$id", access, getM, call, auth, newH, res.Group("hot.${b}"))
 	s.Handle("bare.$id")
 	s.Handle("callnew.$id", access, callNew, call)
 	s.Handle("probe", res.GetModel(func(r res.ModelRequest) { r.Model(map[string]int{"up": 1}) }), res.Access(res.AccessGranted))
@@ -534,6 +536,9 @@ func c04Concurrent(c *core.Ctx, p c04Params) {
 				rt := rtypes[r.Intn(len(rtypes))]
 				pats := c04PatternsFor(rt)
 				pattern := pats[r.Intn(len(pats))]
+				if r.Intn(2) == 0 {
+					pattern = fmt.Sprintf("h.%d", r.Intn(3))
+				}
 				sc := randScript(r, rt, c04HType(pattern), 4)
 				gs := getScripts[r.Intn(len(getScripts))]
 				ms := c04Methods(rt, pattern)
